@@ -10,6 +10,7 @@
 From Coq Require Import List NArith Bool.
 From V.C10 Require Import Model.
 From V.Mgr Require Import DialShape DialShapeProofs Model Caps Ledger LedgerInv.
+From V.Tcp Require Model Proofs Theorems.
 Import ListNotations.
 Open Scope N_scope.
 
@@ -397,3 +398,212 @@ Example C05_handle_limit_is_silent :
   let '(m, os) := run L init es in
   last os [] = [Ret RET_OK; Logged RET_LIMIT] /\ state_of m 2 = Disconnected None /\ pending m = [].
 Proof. vm_compute. repeat split. Qed.
+
+
+(* ================================================================================================
+   The transport contract for the TCP transport (coq/Tcp): what `feas` above assumes about a
+   transport is proved for the model of TcpTransport (src/transport/tcp/mod.rs), for every history
+   of trait calls and future completions. Vocabulary as in LedgerInv.v: g_open = owed open,
+   g_neg = owed negotiate; names are qualified because coq/Mgr/Model.v is imported above.
+   ================================================================================================ *)
+
+(* (a) open phase, for EVERY history of calls and completions (whatever ids the owner uses): a
+   ConnectionOpened / OpenFailure for c is emitted only when c is an owed open at that moment —
+   `In c (g_open g)`, the clause of `feas` for TrOpened / TrOpenFailure *)
+Theorem C05_tcp_open_phase_owed :
+  forall s g e o1 t o2,
+  Tcp.Theorems.reachU s g -> snd (Tcp.Model.step s e) = o1 ++ Tcp.Model.OEv t :: o2 ->
+  match t with
+  | Tcp.Model.TOpened c | Tcp.Model.TOpenFailure c => In c (Tcp.Model.g_open (fold_left Tcp.Model.gout o1 (Tcp.Model.gcall e (snd (Tcp.Model.step s e)) g)))
+  | _ => True
+  end.
+Proof. exact Tcp.Theorems.tcp_open_phase_owed. Qed.
+Print Assumptions C05_tcp_open_phase_owed.
+
+(* ... where an id is an owed open only by open(c), until cancel(c) or its answer: so the event
+   needs an earlier open(c), comes at most once per open(c), and never after cancel(c) *)
+Theorem C05_tcp_owed_open_ledger :
+  (forall e os g c, In c (Tcp.Model.g_open (Tcp.Model.gstep e os g)) -> In c (Tcp.Model.g_open g) \/ exists es, e = Tcp.Model.EOpen c es) /\
+  (forall os g c, ~ In c (Tcp.Model.g_open (Tcp.Model.gstep (Tcp.Model.ECancel c) os g))) /\
+  (forall c g, ~ In c (Tcp.Model.g_open (Tcp.Model.gev (Tcp.Model.TOpened c) g)) /\ ~ In c (Tcp.Model.g_open (Tcp.Model.gev (Tcp.Model.TOpenFailure c) g))).
+Proof. exact Tcp.Theorems.tcp_owed_open_ledger. Qed.
+Print Assumptions C05_tcp_owed_open_ledger.
+
+(* (c) results of the calls, for every history: open succeeds, dial succeeds on a well-formed TCP
+   address, negotiate(c) succeeds exactly when ConnectionOpened c was emitted and c was not
+   negotiated since, a drawn id is the next value of the shared counter *)
+Theorem C05_tcp_call_results :
+  forall s g e, Tcp.Theorems.reachU s g -> Tcp.Model.call_ok e g (snd (Tcp.Model.step s e)) = true.
+Proof. exact Tcp.Theorems.tcp_call_results. Qed.
+Print Assumptions C05_tcp_call_results.
+
+(* ... in particular negotiate(c) succeeds when the manager calls it after ConnectionOpened c,
+   with or without cancel(c) in between *)
+Theorem C05_tcp_negotiate_after_opened :
+  forall s g e c,
+  Tcp.Theorems.reachU s g -> In (Tcp.Model.OEv (Tcp.Model.TOpened c)) (snd (Tcp.Model.step s e)) ->
+  let s1 := fst (Tcp.Model.step s e) in
+  snd (Tcp.Model.step s1 (Tcp.Model.ENegotiate c)) = [Tcp.Model.ORet true] /\
+  snd (Tcp.Model.step (fst (Tcp.Model.step s1 (Tcp.Model.ECancel c))) (Tcp.Model.ENegotiate c)) = [Tcp.Model.ORet true].
+Proof. exact Tcp.Theorems.tcp_negotiate_after_opened. Qed.
+Print Assumptions C05_tcp_negotiate_after_opened.
+
+(* (b) (e) and the identity clause — the whole transport contract, for every history in which the
+   owner passes ids it drew from the counter (`caller_ok`): every emitted event is feasible in the
+   ghost state reached just before it: open-phase events for an owed open, outbound
+   ConnectionEstablished / DialFailure for an owed negotiate (dial(c) or a successful negotiate(c),
+   not answered yet), ConnectionEstablished naming a peer the owner named for that id, inbound
+   ConnectionEstablished for an accepted inbound socket, PendingInboundConnection with the next
+   value of the shared counter (never an id handed out before) *)
+Theorem C05_tcp_contract :
+  forall s g e o1 t o2,
+  Tcp.Theorems.reach s g -> Tcp.Model.caller_ok g e = true -> snd (Tcp.Model.step s e) = o1 ++ Tcp.Model.OEv t :: o2 ->
+  Tcp.Model.tfeas (fold_left Tcp.Model.gout o1 (Tcp.Model.gcall e (snd (Tcp.Model.step s e)) g)) t = true.
+Proof. exact Tcp.Theorems.tcp_contract. Qed.
+Print Assumptions C05_tcp_contract.
+
+(* identity: an outbound ConnectionEstablished for c reports a peer q that an address of the
+   dial / open call of c names; when every address names p (the manager dials one peer), q = p.
+   A handshake answered by another identity ends in a failure, never in ConnectionEstablished *)
+Theorem C05_tcp_established_names_dialled_peer :
+  forall s g e o1 c q o2,
+  Tcp.Theorems.reach s g -> Tcp.Model.caller_ok g e = true -> snd (Tcp.Model.step s e) = o1 ++ Tcp.Model.OEv (Tcp.Model.TEstablished c q false) :: o2 ->
+  let g' := fold_left Tcp.Model.gout o1 (Tcp.Model.gcall e (snd (Tcp.Model.step s e)) g) in
+  In c (Tcp.Model.g_neg g') /\
+  exists es, Tcp.Model.lookup c (Tcp.Model.g_att g') = Some es /\ (exists x, In x es /\ Tcp.Model.matches x q = true) /\
+             forall p, (forall x, In x es -> x = Some p) -> q = p.
+Proof. exact Tcp.Theorems.tcp_established_names_dialled_peer. Qed.
+Print Assumptions C05_tcp_established_names_dialled_peer.
+
+(* ... and what an id names is fixed by the dial / open call that introduced it *)
+Theorem C05_tcp_named_by_call :
+  forall e os g c,
+  Tcp.Model.lookup c (Tcp.Model.g_att (Tcp.Model.gstep e os g)) =
+  match e with
+  | Tcp.Model.EDial c' _ ex => if (c' =? c) && Tcp.Model.ret_ok os then Some [ex] else Tcp.Model.lookup c (Tcp.Model.g_att g)
+  | Tcp.Model.EOpen c' es => if c' =? c then Some es else Tcp.Model.lookup c (Tcp.Model.g_att g)
+  | _ => Tcp.Model.lookup c (Tcp.Model.g_att g)
+  end.
+Proof. exact Tcp.Theorems.tcp_named_by_call. Qed.
+Print Assumptions C05_tcp_named_by_call.
+
+(* (d) no dropped answer: under caller_ok the branches of poll_next that consume a completed
+   future without an event — "raw connection without a cancel handle" (Connected and Failed),
+   "raw cancelled connection without a cancel handle", the is_aborted() test answering for a
+   foreign handle, the silent failure of a dial — are unreachable; the only silent branch taken is
+   the failed negotiation of an inbound socket, which is owed to nobody *)
+Theorem C05_tcp_no_dropped_answer :
+  forall s g e m,
+  Tcp.Theorems.reach s g -> Tcp.Model.caller_ok g e = true -> In (Tcp.Model.OMark m) (snd (Tcp.Model.step s e)) ->
+  exists c, m = Tcp.Model.MSilentFailure c Tcp.Model.KInb.
+Proof. exact Tcp.Theorems.tcp_no_dropped_answer. Qed.
+Print Assumptions C05_tcp_no_dropped_answer.
+
+(* what is owed is backed by a pending, un-cancelled future of the transport: the environment
+   always has something to complete *)
+Theorem C05_tcp_owed_is_pending :
+  forall s g c,
+  Tcp.Theorems.reach s g ->
+  (In c (Tcp.Model.g_open g) -> exists f rem, Tcp.Model.lookup f (Tcp.Model.praw s) = Some c /\ Tcp.Model.lookup f (Tcp.Model.attempts s) = Some rem /\
+                                    ~ In f (Tcp.Model.aborted s)) /\
+  (In c (Tcp.Model.g_neg g) -> exists f k, Tcp.Model.lookup f (Tcp.Model.pconn s) = Some (c, k) /\ Tcp.Model.is_inb k = false).
+Proof. exact Tcp.Theorems.tcp_owed_is_pending. Qed.
+Print Assumptions C05_tcp_owed_is_pending.
+
+(* progress, open: an address of an owed open answers with the identity it names: the poll that
+   observes it emits ConnectionOpened *)
+Theorem C05_tcp_progress_open_answer :
+  forall s g f c rem i e q,
+  Tcp.Theorems.reach s g -> Tcp.Model.lookup f (Tcp.Model.praw s) = Some c -> In c (Tcp.Model.g_open g) ->
+  Tcp.Model.lookup f (Tcp.Model.attempts s) = Some rem -> Tcp.Model.lookup i rem = Some e -> Tcp.Model.matches e q = true ->
+  In (Tcp.Model.OEv (Tcp.Model.TOpened c)) (snd (Tcp.Model.step s (Tcp.Model.EAns f i (Some q)))).
+Proof. exact Tcp.Theorems.tcp_progress_open_answer. Qed.
+Print Assumptions C05_tcp_progress_open_answer.
+
+(* ... its last address fails, or is answered by another identity: OpenFailure *)
+Theorem C05_tcp_progress_open_last_failure :
+  forall s g f c rem i e ans,
+  Tcp.Theorems.reach s g -> Tcp.Model.lookup f (Tcp.Model.praw s) = Some c -> In c (Tcp.Model.g_open g) ->
+  Tcp.Model.lookup f (Tcp.Model.attempts s) = Some rem -> Tcp.Model.lookup i rem = Some e -> Tcp.Model.delk i rem = [] ->
+  (forall q, ans = Some q -> Tcp.Model.matches e q = false) ->
+  In (Tcp.Model.OEv (Tcp.Model.TOpenFailure c)) (snd (Tcp.Model.step s (Tcp.Model.EAns f i ans))).
+Proof. exact Tcp.Theorems.tcp_progress_open_last_failure. Qed.
+Print Assumptions C05_tcp_progress_open_last_failure.
+
+(* ... the overall deadline of the open fires: OpenFailure *)
+Theorem C05_tcp_progress_open_expire :
+  forall s g f c rem,
+  Tcp.Theorems.reach s g -> Tcp.Model.lookup f (Tcp.Model.praw s) = Some c -> In c (Tcp.Model.g_open g) ->
+  Tcp.Model.lookup f (Tcp.Model.attempts s) = Some rem -> rem <> [] ->
+  In (Tcp.Model.OEv (Tcp.Model.TOpenFailure c)) (snd (Tcp.Model.step s (Tcp.Model.EExpire f))).
+Proof. exact Tcp.Theorems.tcp_progress_open_expire. Qed.
+Print Assumptions C05_tcp_progress_open_expire.
+
+(* ... no address is left (open called without addresses): the next poll emits OpenFailure *)
+Theorem C05_tcp_progress_open_no_address :
+  forall s g f c e,
+  Tcp.Theorems.reach s g -> Tcp.Model.lookup f (Tcp.Model.praw s) = Some c -> In c (Tcp.Model.g_open g) -> Tcp.Model.lookup f (Tcp.Model.attempts s) = Some [] ->
+  Tcp.Model.polls e = true -> In (Tcp.Model.OEv (Tcp.Model.TOpenFailure c)) (snd (Tcp.Model.step s e)).
+Proof. exact Tcp.Theorems.tcp_progress_open_no_address. Qed.
+Print Assumptions C05_tcp_progress_open_no_address.
+
+(* progress, dial(c, address naming x): when the socket / handshake ends, the poll that observes
+   it emits ConnectionEstablished for the named peer, DialFailure in every other case *)
+Theorem C05_tcp_progress_dial :
+  forall s g f c i ans,
+  Tcp.Theorems.reach s g -> Tcp.Model.lookup f (Tcp.Model.pconn s) = Some (c, Tcp.Model.KDial) ->
+  exists x, Tcp.Model.lookup c (Tcp.Model.g_att g) = Some [x] /\
+    In (Tcp.Model.OEv (match ans with
+             | Some q => if Tcp.Model.matches x q then Tcp.Model.TEstablished c q false else Tcp.Model.TDialFailure c
+             | None => Tcp.Model.TDialFailure c
+             end)) (snd (Tcp.Model.step s (Tcp.Model.EAns f i ans))).
+Proof. exact Tcp.Theorems.tcp_progress_dial. Qed.
+Print Assumptions C05_tcp_progress_dial.
+
+(* progress, negotiate(c) succeeded: the next poll emits ConnectionEstablished for c *)
+Theorem C05_tcp_progress_negotiate :
+  forall s g f c e,
+  Tcp.Theorems.reach s g -> Tcp.Model.lookup f (Tcp.Model.pconn s) = Some (c, Tcp.Model.KNeg) -> Tcp.Model.polls e = true ->
+  exists q, In (Tcp.Model.OEv (Tcp.Model.TEstablished c q false)) (snd (Tcp.Model.step s e)).
+Proof. exact Tcp.Theorems.tcp_progress_negotiate. Qed.
+Print Assumptions C05_tcp_progress_negotiate.
+
+(* progress, accepted inbound socket: its handshake completes: ConnectionEstablished (listener) *)
+Theorem C05_tcp_progress_inbound :
+  forall s g f c i q,
+  Tcp.Theorems.reach s g -> Tcp.Model.lookup f (Tcp.Model.pconn s) = Some (c, Tcp.Model.KInb) ->
+  In (Tcp.Model.OEv (Tcp.Model.TEstablished c q true)) (snd (Tcp.Model.step s (Tcp.Model.EAns f i (Some q)))).
+Proof. exact Tcp.Theorems.tcp_progress_inbound. Qed.
+Print Assumptions C05_tcp_progress_inbound.
+
+(* (e) ids: everything the transport owes an answer for was passed in by the owner through
+   dial / open: it never invents an outbound id *)
+Theorem C05_tcp_outbound_ids_from_owner :
+  forall s g c,
+  Tcp.Theorems.reachU s g -> In c (Tcp.Model.g_open g) \/ In c (Tcp.Model.g_neg g) \/ In c (Tcp.Model.g_opened g) -> In c (Tcp.Model.g_used g).
+Proof. exact Tcp.Theorems.tcp_outbound_ids_from_owner. Qed.
+Print Assumptions C05_tcp_outbound_ids_from_owner.
+
+
+(* the owner's hygiene (`caller_ok`) is needed for (b) and (d): with open(c) called twice for one
+   id an answer is dropped by the "raw connection without a cancel handle" branch *)
+Theorem C05_tcp_caller_ok_needed :
+  exists es, Tcp.Theorems.callers_ok Tcp.Model.init Tcp.Model.g0 es = false /\
+             In [Tcp.Model.OMark (Tcp.Model.MNoHandle 0)] (snd (Tcp.Theorems.run Tcp.Model.init es)).
+Proof. exact Tcp.Theorems.duplicate_open_drops_an_answer. Qed.
+Print Assumptions C05_tcp_caller_ok_needed.
+
+(* non-vacuity: a dial by peer id as the manager does it (two addresses naming peer 1; the first is
+   answered by identity 2 and refused, the second by peer 1: ConnectionOpened, cancel + negotiate,
+   ConnectionEstablished for peer 1), an address answered only by the wrong identity (OpenFailure),
+   a dial answered by the wrong identity (DialFailure), an inbound socket *)
+Example C05_tcp_history :
+  Tcp.Theorems.callers_ok Tcp.Model.init Tcp.Model.g0 Tcp.Theorems.history1 = true /\
+  snd (Tcp.Theorems.run Tcp.Model.init Tcp.Theorems.history1) =
+  [[Tcp.Model.OId 0]; [Tcp.Model.ORet true]; []; []; [Tcp.Model.OEv (Tcp.Model.TOpened 0)]; [];
+   [Tcp.Model.ORet true]; [Tcp.Model.OEv (Tcp.Model.TEstablished 0 1 false)]; [Tcp.Model.ORet true];
+   [Tcp.Model.OId 1]; [Tcp.Model.ORet true]; [Tcp.Model.OEv (Tcp.Model.TOpenFailure 1)];
+   [Tcp.Model.OId 2]; [Tcp.Model.ORet true]; [Tcp.Model.OEv (Tcp.Model.TDialFailure 2)];
+   [Tcp.Model.OEv (Tcp.Model.TPendingInbound 3)]; [Tcp.Model.ORet true];
+   [Tcp.Model.OEv (Tcp.Model.TEstablished 3 7 true)]].
+Proof. exact Tcp.Theorems.history1_ok. Qed.
